@@ -142,7 +142,7 @@ class Ctx(object):
 
 def _jsonable(x, depth=0):
     import math
-    if depth > 6:
+    if depth > 14:
         return repr(x)
     if x is None or isinstance(x, (bool, int, str)):
         return x
